@@ -11,6 +11,50 @@ from ..sandbox import MODEL_ROOT as R, run_concurrent
 from ..worldgen import make_entry, populate_trash
 
 
+def judge(world, procs, sched, drv):
+    """run the processes under the schedule on the real code; oracles C01 / C04 on the final state"""
+    obs = run_concurrent(world, procs, sched, facts=put_facts)
+    mounts = [hx(x) for x in world["mounts"]]
+    base = {"op": "oracle", "before": snapshot_rows(obs["before"]), "after": snapshot_rows(obs["after"]), "mounts": mounts}
+    dirs = sorted({d["dir"] for f in obs["facts"] for d in f["dirs"]})
+    items = []
+    for f, pr in zip(obs["facts"], obs["procs"]):
+        it = f["items"][0]
+        named = (b"'" + it["arg"] + b"'") in pr["stderr"]
+        items.append({"entry": hx(it["entry"]) if it["entry"] is not None else None, "reported": bool(named and pr["exit"] != 0)})
+    bad = []
+    r1 = drv.ask(dict(base, prop="C01", dirs=[hx(d) for d in dirs], items=items))
+    r4 = drv.ask(dict(base, prop="C04", dirs=[hx(d) for d in dirs]))
+    for nm, r in (("C01", r1), ("C04", r4)):
+        if not r["ok"]:
+            bad.append({"oracle": nm, "verdict": r["verdict"]})
+    for k, pr in enumerate(obs["procs"]):
+        if pr["exc"]:
+            bad.append({"oracle": "no-traceback", "verdict": "process %d: uncaught %s" % (k, pr["exc"])})
+        if pr["exit"] not in (0, 74):
+            bad.append({"oracle": "exit", "verdict": "process %d: exit %r" % (k, pr["exit"])})
+        if pr["escapes"]:
+            bad.append({"oracle": "confinement", "verdict": "escape"})
+    return obs, bad
+
+
+def replay_concurrent(pid, path, oracles=None):
+    """re-run the recorded processes under the recorded schedule; None when the file is not a concurrent replay"""
+    import json
+    from ..runner import unjsonable
+    obj = unjsonable(json.load(open(path)))
+    rp = obj.get("replay") if isinstance(obj.get("replay"), dict) else None
+    if not rp or not rp.get("procs") or rp.get("schedule") is None:
+        return None
+    obs, bad = judge(rp["world"], rp["procs"], list(rp["schedule"]), driver())
+    bad = [b for b in bad if oracles is None or b["oracle"] in oracles]
+    print(json.dumps({"executed": obs["executed"], "exits": [p["exit"] for p in obs["procs"]], "bad": bad}, indent=1, default=repr))
+    if bad:
+        print("VIOLATION property=%s replay=%s" % (pid, path))
+        return 1
+    return 0
+
+
 def par_task(task):
     rng = task_rng("C04par", task["seed"], task["i"])
     drv = driver()
@@ -55,28 +99,7 @@ def par_task(task):
         if rng.random() > sticky:
             cur = rng.randrange(nproc)
         sched.append(cur)
-    obs = run_concurrent(world, procs, sched, facts=put_facts)
-    mounts = [hx(x) for x in world["mounts"]]
-    base = {"op": "oracle", "before": snapshot_rows(obs["before"]), "after": snapshot_rows(obs["after"]), "mounts": mounts}
-    dirs = sorted({d["dir"] for f in obs["facts"] for d in f["dirs"]})
-    items = []
-    for f, pr in zip(obs["facts"], obs["procs"]):
-        it = f["items"][0]
-        named = (b"'" + it["arg"] + b"'") in pr["stderr"]
-        items.append({"entry": hx(it["entry"]) if it["entry"] is not None else None, "reported": bool(named and pr["exit"] != 0)})
-    bad = []
-    r1 = drv.ask(dict(base, prop="C01", dirs=[hx(d) for d in dirs], items=items))
-    r4 = drv.ask(dict(base, prop="C04", dirs=[hx(d) for d in dirs]))
-    for nm, r in (("C01", r1), ("C04", r4)):
-        if not r["ok"]:
-            bad.append({"oracle": nm, "verdict": r["verdict"]})
-    for k, pr in enumerate(obs["procs"]):
-        if pr["exc"]:
-            bad.append({"oracle": "no-traceback", "verdict": "process %d: uncaught %s" % (k, pr["exc"])})
-        if pr["exit"] not in (0, 74):
-            bad.append({"oracle": "exit", "verdict": "process %d: exit %r" % (k, pr["exit"])})
-        if pr["escapes"]:
-            bad.append({"oracle": "confinement", "verdict": "escape"})
+    obs, bad = judge(world, procs, sched, drv)
     switches = sum(1 for a, c in zip(obs["executed"], obs["executed"][1:]) if a != c)
     out = {"key": (scenario, nproc, tuple(sched[:60]), name), "tags": ["scenario:" + scenario, "procs:%d" % nproc,
                                                                       "switches:%s" % ("0" if switches == 0 else "1-5" if switches <= 5 else "6-50" if switches <= 50 else ">50"),
@@ -90,8 +113,9 @@ def par_task(task):
     return out
 
 
-def add_concurrent(ck, tier, seed):
-    n = 120 if tier == "quick" else 3000
+def add_concurrent(ck, tier, seed, oracles=None, n_quick=120, n_thorough=3000):
+    """`oracles`: which verdicts count for the calling check (None: all)"""
+    n = n_quick if tier == "quick" else n_thorough
     steps = 0
     for r in run_tasks(par_task, [{"seed": seed, "i": i} for i in range(n)]):
         if "machinery" in r:
@@ -99,6 +123,8 @@ def add_concurrent(ck, tier, seed):
         ck.case(r["key"], tags=["concurrent"] + r["tags"], sample={"concurrent": r["key"][0], "procs": r["key"][1], "steps": r["steps"]})
         steps += r["steps"]
         for b in r["bad"]:
+            if oracles is not None and b["oracle"] not in oracles:
+                continue
             ck.violation(b["verdict"], {"oracle": b["oracle"], "concurrent": True},
                          {"world": r.get("world"), "procs": r.get("procs"), "schedule": r.get("schedule"), "stderr": r.get("stderr"),
                           "verdict": b["verdict"]})
